@@ -144,6 +144,16 @@ let handle (payload : string) : string =
         | _ -> failwith "bad burst item") (String.split_on_char '/' items);
       emit (Printf.sprintf "s%s=%s;y%s=%s;z%s=%s;a%s=%s" n (dump !st.mem) n (file_s !st.disk.f_conf)
               n (if !saved2 then hx (save_bytes !mem2) else "!") n (bool01 !atomic))
+    | ["Wc"] | ["Wr"] ->
+      let script = (if List.hd a = "Wc" then script_close_failed else script_rename_failed)
+                     (List.map (fun (k, v) -> k @ str_of_string " = " @ v @ str_of_string "\n") !st.mem) in
+      cls (if List.hd a = "Wc" then "close-fails" else "rename-fails");
+      let imgs = images_from script !st.disk in
+      let atomic = crash_atomic_chk (restart !st.disk) !st.mem imgs in
+      let d = match fs_run fs_step script !st.disk with Some d -> d | None -> failwith "fs-hazard" in
+      st := { !st with disk = d };
+      emit (Printf.sprintf "s%s=%s;y%s=%s;f%s=%s;t%s=%s;a%s=%s" n (dump !st.mem) n (file_s d.f_conf) n (file_s d.f_conf)
+              n (file_s d.f_tmp) n (bool01 atomic))
     | ["W"; k] ->
       let k = ios k in
       let script = save_script_enospc !st.mem (nat_of_int k) in
@@ -164,6 +174,7 @@ let handle (payload : string) : string =
            else if k = total - 1 then "crash-before-rename" else if k = 1 then "crash-after-open" else "crash-mid-write");
       st := step !st (OCrashSave (nat_of_int k));
       emit ("s" ^ n ^ "=" ^ dump !st.mem ^ save_keys n before !st)
+    | ["K"] -> cls "symlinked-file"; emit ("s" ^ n ^ "=" ^ dump !st.mem)
     | ["l"] | ["lf"] ->
       (* Load() / LoadFromFile() on the live object: the store becomes what the file holds, every time *)
       if !loads > 0 then cls "reload-same-object" else cls "load";
